@@ -1110,6 +1110,8 @@ def native_gather(rng, n):
     for t in range(n):
         nc, ns = int(rng.integers(3, 20)), int(rng.integers(200, 400))
         arr = rng.standard_normal((nc, ns)).astype(np.float32)
+        if t % 4 == 3:
+            arr = (arr * 300).astype([np.int16, np.int32, np.float64][(t // 4) % 3])        # raw counts / double precision traces: the padding is still NaN, the samples the same numbers
         geom = np.c_[rng.integers(0, 3, nc) * 16.0, np.arange(nc) * 20.0]
         cn = U.make_channel_index(geom, radius=float(rng.choice([30, 45, 70])))
         tr, L = int(rng.integers(1, 30)), int(rng.integers(31, 80))
@@ -1122,7 +1124,7 @@ def native_gather(rng, n):
             for c in range(cn.shape[1]):
                 ch = cn[peaks[i], c]
                 want = np.full(L, np.nan, np.float32) if ch == nc else arr[ch, samples[i] - tr: samples[i] - tr + L]
-                if not np.array_equal(wfs[i, c], want, equal_nan=True):
+                if not np.array_equal(np.asarray(wfs[i, c], dtype=float), np.asarray(want, dtype=float), equal_nan=True):
                     bad.append((nc, ns, tr, L, int(samples[i])))
         # neighbour table: ascending channels within radius, padded with nc
         d = np.sqrt(((geom[:, None, :] - geom[None, :, :]) ** 2).sum(-1))
